@@ -9,7 +9,7 @@ claim("C06", category="model_checking", engine="arraymc",
            "configurations (1,2,3z,3,6 levels; split parity; hash kinds/sizes; several content copies), is decoded with an independent content "
            "codec and every all-synced stripe is recomputed with an independent GF(2^8) generator and compared with the parity bytes addressed "
            "through the recorded split sizes; map sanity is checked on the same state. Exhaustive within the depth bound; all traces are real executions. "
-           "Later additions: operations 'silent' (in-place corruption keeping size and stamp), syncs with an injected read error, sync -E; initial states with silent errors pending; transition oracles after every command (hash kept for DELETED positions, books untouched by rehash/touch); a part where the parity disk runs full in the middle of a history. A part with hash size 2 where a rewritten or new block is made (by enumeration) to have the same reduced hash as the block it replaces or as a marker value.",
+           "Later additions: operations 'silent' (in-place corruption keeping size and stamp), syncs with an injected read error, sync -E; initial states with silent errors pending; transition oracles after every command (hash kept for DELETED positions, books untouched by rehash/touch); a part where the parity disk runs full in the middle of a history. A part with hash size 2 where a rewritten or new block is made (by enumeration) to have the same reduced hash as the block it replaces or as a marker value. A part with disks that are configured but empty and a disk added to the configuration (every subset x every place x every receiving disk).",
       note="trusted: libvp interposition (frozen clock/urandom/statfs), the lab's version store as ground truth for file bytes, vpref.c as field/generator reference; arrays have <=4 disks and 1-2 KiB blocks",
       design="3 C06")
 
@@ -34,7 +34,7 @@ claim("C04", category="fault_enumeration", engine="arraymc",
            "check, scrub -p full / new / 100 (clock advanced) / 50 -o 0 / bad (after a marking scrub) and the set of error:/parity_error: tags must "
            "equal the damaged (stripe, disk|level) set the command covers, the exit status must fail, and status -G must list exactly those stripes "
            "as bad after a scrub; the undamaged array must stay silent under every command. "
-           'Later additions: a partly synced configuration (pending blocks on a lower disk next to synced blocks of a higher disk); full check and full scrub repeated with every pread answering short; the shared transition oracles (parity, books) after every command of the preparation.',
+           'Later additions: a partly synced configuration (pending blocks on a lower disk next to synced blocks of a higher disk); full check and full scrub repeated with every pread answering short; the shared transition oracles (parity, books) after every command of the preparation. A configuration with an unused stripe range in the middle of the array; several parity levels damaged in the same stripe.',
       note="same-stripe data+parity damage is not combined (scrub by design skips the parity compare once a data block failed); hash sizes 8/16 only",
       design="3 C04")
 
@@ -85,7 +85,7 @@ claim("C08", category="fault_enumeration", engine="crashmc",
            "must exit failing with a diagnostic, the stripe hit must not be recorded synced-and-healthy, the C06 oracle must hold, all other stripes "
            "must end as in the fault-free run (EIO), and the next sync or fix -e + scrub -p bad must clear everything. Read-side errors are checked "
            "strictly; the three parity-write defects are recorded findings keyed by call site. "
-           'Later additions: short reads as an environment answer (alone: must be transparent; followed by EIO on the continuation); scrub scenarios with a standing file error (file removed / shortened since the sync) in the stripe of the injected error, judged against the fault-free run of the same scenario.',
+           'Later additions: short reads as an environment answer (alone: must be transparent; followed by EIO on the continuation); scrub scenarios with a standing file error (file removed / shortened since the sync) in the stripe of the injected error, judged against the fault-free run of the same scenario. Scrub scenarios on stripes that an earlier scrub marked bad after an I/O error.',
       note="threaded depths run free; per-file call numbering is schedule independent (one worker per file); the tail-not-collected finding is the only schedule dependent outcome",
       design="3 C08")
 
@@ -111,7 +111,7 @@ claim("C12", category="model_checking", engine="arraymc (monitor)",
            "read-only commands nothing; scrub/rehash content only; sync content+parity and never below a data disk; fix never content, only data "
            "paths it tags fixed/recovered/unrecoverable (and their hard links / parent dirs) and only parity blocks it tags parity_fixed; pool only "
            "the pool dir; touch only the sub-second mtime of files whose recorded nsec is zero plus content. Allowed always: log, lock file. "
-           'Later additions: conditions bad-then-missing, kinds swapped (empty file to link, link to file, directory to file, file to directory), a recorded zero-nanosecond file rewritten since; menu entries for -b and range-limited fix.',
+           'Later additions: conditions bad-then-missing, kinds swapped (empty file to link, link to file, directory to file, file to directory), a recorded zero-nanosecond file rewritten since; menu entries for -b and range-limited fix. Conditions with a multi-block file rewritten by the user since the sync (also after a bad mark).',
       note="the monitor (vp/perm.py) is also usable on every run of the other checks; 'zero time-stamps' = recorded sub-second part zero",
       design="3 C12")
 
@@ -123,7 +123,7 @@ claim("C14", category="fault_enumeration", engine="arraymc + crashmc",
            "write/rename/truncate on them (trace); with the override or the setting restored the same sync must succeed and C11's post-sync oracle "
            "hold. Lock: sync, scrub, fix and touch are paused (LD_PRELOAD) at EVERY state-changing call k>=1 while a second sync is attempted: it "
            "must be refused with 'already in use' and write nothing; after release the first command completes and sync proceeds. "
-           'Later additions: per-disk triggers combined with files arriving on the emptied disk; zero-size trigger below a sub-directory; a configuration whose second disk is still unrecorded; configuration mismatches also tried with the force options of other interlocks; more first commands for the lock.',
+           'Later additions: per-disk triggers combined with files arriving on the emptied disk; zero-size trigger below a sub-directory; a configuration whose second disk is still unrecorded; configuration mismatches also tried with the force options of other interlocks; more first commands for the lock. Parity shortened by less than a block (and a configuration whose content records parity sizes); every trigger also tried with the overrides of the other interlocks.',
       note="SIGABRT from the tool's own os_abort counts as a failing refusal (v2 content + reduced hashsize in the configuration ends that way)",
       design="3 C14")
 
@@ -150,7 +150,7 @@ claim("C17", category="model_checking", engine="arraymc",
            "at their recorded sizes must equal the twin's parity byte for byte, recorded sizes must be block multiples not larger than the files, "
            "only the last used split may change size while growing, the C06 oracle (positions read back through the recorded sizes) must hold, and "
            "a limit too small for the data must give a clean refusal that leaves C06 intact. "
-           "Later additions: asymmetric configurations (only one level split, limits computed from the tool's limit formula), every non-empty split of every level lost in turn alone and with a data disk, total length compared with the twin, split file lengths unchanged by a rebuild, per-file limit growing between syncs. A fixed-size split lost and fix run with less room than at sync time (refusal or in-place rebuild, never a shifted mapping).",
+           "Later additions: asymmetric configurations (only one level split, limits computed from the tool's limit formula), every non-empty split of every level lost in turn alone and with a data disk, total length compared with the twin, split file lengths unchanged by a rebuild, per-file limit growing between syncs. A fixed-size split lost and fix run with less room than at sync time (refusal or in-place rebuild, never a shifted mapping). Every fixed-size split loses its last block: check reports exactly that stripe, a plain fix restores it.",
       note="limits come from the tool's own test seam; <=2 data disks",
       design="3 C17")
 
@@ -193,7 +193,7 @@ claim("C10", category="model_checking", engine="arraymc + bytemc",
            "parities) at each varint length boundary up to 2^64-1 / 2^32-1, nanoseconds invalid/0/1/999999999/2^30, info times at delta boundaries "
            "with alternating flags, sparse maps with single-block runs at positions 127..2^21, a 16389-block run and 300 deleted blocks - must be "
            "loaded, rewritten to exactly the encoder's bytes, and shown with the same values by list. "
-           "Later additions: configurations 'emptied' and 'phantom' (disks whose last remains are DELETED positions); C06's parity oracle and the transition oracles evaluated in every step; one configuration with persistent inodes.",
+           "Later additions: configurations 'emptied' and 'phantom' (disks whose last remains are DELETED positions); C06's parity oracle and the transition oracles evaluated in every step; one configuration with persistent inodes. Several links and several empty directories on one disk.",
       note="info times are multiples of 8 s and never in the future in reachable states; states are re-based between same-length lab roots because v3 content records absolute split paths",
       design="3 C10")
 
@@ -229,7 +229,7 @@ claim("C18", category="exploration", engine="bytemc (filter harness) + arraymc",
            "below, escapes. Part 2: every single rule and 6 ordered pairs end to end through sync and the decoded content, with and without nohidden, "
            "with content copies, a stale tmp and lock files on a data disk (never recorded). Part 3: all 64 combinations of -f (3 patterns) / -d / -m / "
            "-e in check -v: the processed file set equals the prediction and nothing is written. "
-           'Later additions: the selection part plants a wrong parity block (parity must stay untouched under -f/-m/-d DATADISK), missing links and empty directories, a bad-marked file rewritten by the user (outside -e).',
+           'Later additions: the selection part plants a wrong parity block (parity must stay untouched under -f/-m/-d DATADISK), missing links and empty directories, a bad-marked file rewritten by the user (outside -e). The end-to-end tree holds symbolic links (every third entry).',
       note="cases where 'first match decides' and 'a directory pattern takes everything below' disagree are counted and not judged (manual ambiguous); fix's side of selection is C05's filter menu",
       design="3 C18")
 
@@ -242,7 +242,7 @@ claim("C16", category="exploration", engine="bytemc (vector harness) + arraymc",
            "9421 vectors (both hashes for every length 0..1100 x 4 seeds, CRC-32C generic and dispatched for lengths 0..300 and a seeded long run, 6 "
            "Cauchy + 3 power parity blocks of an 8-disk stripe) are reproduced bit for bit by the current build through a linked harness; the same "
            "vectors are recomputed by native/vpref.c so the golden files are anchored to the published algorithms. "
-           'Later additions: 12 reference arrays caught in the middle of a hash migration (both directions); the arrays are read with the start-up self test enabled.',
+           'Later additions: 12 reference arrays caught in the middle of a hash migration (both directions); the arrays are read with the start-up self test enabled. 20 reference arrays whose record holds pending states (deleted positions, new / rewritten / copied files saved by a range-limited sync), every hash size.',
       note="golden files generated once from a scratch worktree of commit e695936 (see golden/README); both tiers run everything",
       design="3 C16")
 
@@ -258,6 +258,6 @@ claim("C13", category="model_checking", engine="schedmc",
            "tiny scenario in thorough) must give the single-threaded outcome (exit, tags, parity bytes, content, trees). Part 3: every "
            "--test-io-cache depth (8 values quick, all 3..128 thorough) x multi-scan on/off on 7 scenarios incl. two silent errors in one stripe. "
            "Part 4: ThreadSanitizer build, free running. "
-           'Later additions: scenarios with a pending hash migration and with two silent errors in one stripe in every part.',
+           'Later additions: scenarios with a pending hash migration and with two silent errors in one stripe in every part. A scrub scenario with a touched file followed by silent errors on the same disk.',
       note="sequential consistency only; unsynchronised accesses are visible only to the TSan pass; two recorded findings (writer error lost, scan copy-source race)",
       design="3 C13, 11.2")
